@@ -848,7 +848,7 @@ func ruleC19DecodeFresh(c *Ctx) {
 
 // ---------------------------------------------------------------- R-C19-discover-parse
 
-const textDiscoverParse = "R-C19-discover-parse: at start-up the index of a snapshot file is the WHOLE rest of its name read as a number: the index handed to the function that creates the database to load into comes from strconv.ParseInt / ParseUint / Atoi (which refuse trailing text), and the parse error is tested. A prefix scanner (fmt.Sscanf \"%d\") reads `base.db0.tmp` — the temporary file an interrupted save leaves behind — as database 0 and loads the torn file over the good snapshot"
+const textDiscoverParse = "R-C19-discover-parse: at start-up the index of a snapshot file is the WHOLE rest of its name read as a number: the index handed to the function that creates the database to load into comes from strconv.ParseInt / ParseUint / Atoi (which refuse trailing text) applied to the name cut off behind the prefix by position (not by a cutset function such as strings.TrimLeft, which also strips digits that occur in the base name), and the parse error is tested. A prefix scanner (fmt.Sscanf \"%d\") reads `base.db0.tmp` — the temporary file an interrupted save leaves behind — as database 0 and loads the torn file over the good snapshot"
 
 func ruleC19DiscoverParse(c *Ctx) {
 	const id = "R-C19-discover-parse"
@@ -884,6 +884,16 @@ func ruleC19DiscoverParse(c *Ctx) {
 			case "strconv.ParseInt", "strconv.ParseUint", "strconv.Atoi":
 			default:
 				return false, false
+			}
+			// what is parsed is the name behind the prefix, cut off by position (or TrimPrefix): a cutset function
+			// (Trim, TrimLeft, TrimRight) strips every leading character that occurs in the base name, digits included
+			if len(call.Call.Args) > 0 {
+				if ac, ok := call.Call.Args[0].(*ssa.Call); ok {
+					switch fullCalleeName(ac) {
+					case "strings.Trim", "strings.TrimLeft", "strings.TrimRight", "strings.TrimFunc", "strings.TrimLeftFunc", "strings.TrimRightFunc", "strings.Replace", "strings.ReplaceAll":
+						return false, false
+					}
+				}
 			}
 			tested := false
 			for _, r := range referrers(call) {
@@ -1463,6 +1473,7 @@ func ruleC15HelloStored(c *Ctx) {
 					boolFn = true
 				}
 			}
+			narrowed := ""
 			// does the edge b→succ[si] mean "the version equals 2 (or 3)"?
 			acceptEdge := func(b *ssa.BasicBlock, si int) bool {
 				ifi, ok := b.Instrs[len(b.Instrs)-1].(*ssa.If)
@@ -1480,6 +1491,17 @@ func ruleC15HelloStored(c *Ctx) {
 				kc, isC := constInt(y)
 				if !isC || (kc != 2 && kc != 3) || strip(x) != v {
 					return false
+				}
+				// compared after it was cut down to fewer bits: 4294967299 is then 3
+				for w := x; ; {
+					cv, ok := w.(*ssa.Convert)
+					if !ok {
+						break
+					}
+					if c.Pkg.TypesSizes != nil && c.Pkg.TypesSizes.Sizeof(cv.Type()) < c.Pkg.TypesSizes.Sizeof(cv.X.Type()) {
+						narrowed = c.Pos(cv.Pos())
+					}
+					w = cv.X
 				}
 				return (bo.Op == token.EQL) == (si == 0)
 			}
@@ -1517,6 +1539,11 @@ func ruleC15HelloStored(c *Ctx) {
 				}
 			}
 			walk(fn.Blocks[0], false)
+			if narrowed != "" {
+				c.S.Bad(id, key+":unnarrowed", c.Pos(st.Pos()), fmt.Sprintf("%s compares the protocol version with 2 and 3 after converting it to a narrower integer type (at %s): HELLO 4294967299 is accepted as 3", fnName(fn), narrowed))
+			} else {
+				c.S.OK(id, key+":unnarrowed", c.Pos(st.Pos()), "the number is compared as the client sent it")
+			}
 			if bad != "" {
 				c.S.Bad(id, key, c.Pos(st.Pos()), fmt.Sprintf("%s can return (at %s) with the request's protocol version neither stored nor refused: a HELLO that is answered as accepted leaves the connection in its old protocol", fnName(fn), bad))
 			} else {
